@@ -562,6 +562,8 @@ Definition eval_rhs (ρ : env) (r : rhs) : M wrap :=
                   | [] => ret ws
                   | _ => lift (bind_partial (fn_params fr) ws (combine (map fst kwargs) ks))
                   end);
+      (* inspect.signature(function).bind(...): every parameter gets exactly one argument *)
+      if negb (Nat.eqb (List.length all) (List.length (fn_params fr))) then fail "TypeError" else
       mdo id <- alloc;
       mdo ids <- need_ids all;
       match fn_ret fr with
